@@ -7,6 +7,7 @@ import HcipyVerif.Lemmas.Mft
 import HcipyVerif.Lemmas.Czt
 import HcipyVerif.Lemmas.Axes
 import HcipyVerif.Lemmas.FftSelect
+import HcipyVerif.Lemmas.FftState
 
 /-!
 # C01 — every Fourier transform evaluates the same weighted Fourier sum
@@ -305,6 +306,24 @@ theorem selection_current_counterexample_ndim :
 /-- Non-vacuity of the round trip: `N = 87`, `M = Mo = 218`. -/
 example : getFftParameters ⟨87, 1 / 4⟩ ⟨218, 2 / 109, 3 / 8, 0⟩
     = some ⟨218 / 87, 1, 3 / 8 + 2 / 109 * 109, 0⟩ := by decide +kernel
+
+/-! ### the persistent internal array (`Model/FftState.lean`) -/
+
+/-- **History independence**: `forward`/`backward` fully overwrite the object's internal array
+before reading it (`internal_array[:] = field`, or `[:] = 0` followed by the cut-out assignment),
+so for every previous content `buf` the FFT core equals the stateless model the theorems above
+are about — a transform object may be re-used in any call sequence. -/
+theorem fft_core_history_independent {C : Type} [CommRing C] (b : Bool) (N M Mo : ℕ) (hM : 0 < M)
+    (hNM : N ≤ M) (ker : ℤ → C) (buf f : ℕ → C) (k : ℕ) :
+    coreState b N M Mo ker buf f k = core b N M Mo ker f k :=
+  coreState_eq_core b N M Mo hM hNM ker buf f k
+
+/-- skipping the clearing (the seeded "padding is clean" flags) makes the result depend on the
+previous call -/
+theorem fft_core_no_clear_counterexample :
+    coreStateNoClear false 1 2 2 (fun _ => (1 : ℤ)) (fun _ => 1) (fun _ => 0) 0
+      ≠ coreStateNoClear false 1 2 2 (fun _ => (1 : ℤ)) (fun _ => 0) (fun _ => 0) 0 :=
+  coreStateNoClear_history_dependent
 
 /-! ### Concrete instance: `Complex.exp` -/
 
